@@ -546,7 +546,7 @@ impl Session {
       let name = part.name;
       thread::spawn(move || {
         while !done.load(Ordering::SeqCst) {
-          thread::sleep(Duration::from_millis(500));
+          thread::sleep(Duration::from_millis(25));
           for (w, stamp) in stamps.iter().enumerate() {
             if let Some(start) = *stamp.lock().unwrap()
               && start.elapsed() > timeout
